@@ -122,7 +122,7 @@ pub mod var_side { use super::*;
     ensures
         r matches Some(p) ==> self.path_spec(runtime) == Some(p.keys@),          // [C07:path_is_name_then_evaluated_indices]
         r is None ==> self.path_spec(runtime) is None,
-//@ edit <<for expr in &self.indexes>> => <<for expr in it: &self.indexes>> why: names Verus' ghost iterator so that the invariant can refer to the position
+//@ editre <<for (\w+) in &self\.indexes>> => <<for \1 in it: &self.indexes>> why: names Verus' ghost iterator so that the invariant can refer to the position
 //@ loop 0 kind=for
     invariant
         0 <= it.index@ <= self.indexes@.len(),
@@ -137,7 +137,7 @@ pub mod var_side { use super::*;
     ensures
         r matches Ok(p) ==> self.path_spec(runtime) == Some(p.keys@),            // [C07:failing_path_form_agrees_with_optional_form]
         r is Err ==> self.path_spec(runtime) is None,                            // [C07:path_fails_only_if_an_index_is_missing_or_not_scalar]
-//@ edit <<for expr in &self.indexes>> => <<for expr in it: &self.indexes>> why: names Verus' ghost iterator so that the invariant can refer to the position
+//@ editre <<for (\w+) in &self\.indexes>> => <<for \1 in it: &self.indexes>> why: names Verus' ghost iterator so that the invariant can refer to the position
 //@ loop 0 kind=for
     invariant
         0 <= it.index@ <= self.indexes@.len(),
